@@ -13,10 +13,18 @@
 #define XML_CURSOR_CONTRACTS_H
 /* ghosts (besides GS/GSC of iora_xml.h): GLEN = length of the C-string argument of matchString/matchWordCaseInsensitive;
  * GSC1..3 = the input bytes behind GS (readUntil compares up to 4 bytes); each is DEFINED by the precondition that uses it */
-size_t GLEN; char GSC1; char GSC2; char GSC3;
+char GSC1; char GSC2; char GSC3;
 /* matchString/matchWordCaseInsensitive: GWC = word byte at the arbitrary index GK, GIC = input byte at cursor+GK.
  * Both DEFINED by the precondition of the proof that uses them. */
-char GWC; char GIC;
+#ifdef XML_GHOST_INLINE
+#define GLEN XML_SLEN(s)
+#define GWC (s)[GK]
+#define GIC XML_AT(self, __CPROVER_old(self->_cur) + GK)
+#define MATCH_GHOST_DEF 1
+#else
+size_t GLEN; char GWC; char GIC;
+#define MATCH_GHOST_DEF (GLEN == XML_SLEN(s) && (GK < GLEN ==> (GWC == s[GK] && (GK < self->_input.n - self->_cur ==> GIC == XML_AT(self, self->_cur + GK)))))
+#endif
 
 /* ---- C-string arguments of matchString/matchWordCaseInsensitive: NUL within the first 8 bytes (all call sites pass literals of
  *      2 and 7 characters); loop-free strlen and prefix comparison ---- */
@@ -90,7 +98,7 @@ char GWC; char GIC;
                      ENS((GS == self->_cur && GS < self->_input.n) ==> !XML_IS_SPACE(GSC))
 
 /* ---------------- matchString / matchWordCaseInsensitive ---------------- */
-#define MATCH_PRE (XML_PRE(self) && XML_SLEN(s) <= 7 && GLEN == XML_SLEN(s) && (GK < GLEN ==> (GWC == s[GK] && (GK < self->_input.n - self->_cur ==> GIC == XML_AT(self, self->_cur + GK)))))
+#define MATCH_PRE (XML_PRE(self) && XML_SLEN(s) <= 7 && MATCH_GHOST_DEF)
 #define DECL_match(sym, POST) bool sym(Parser *self, const char *s) __CPROVER_requires(MATCH_PRE) CUR_FRAME POST ;
 /* M1 invariant; M2 a match consumes exactly the word; M3 a mismatch consumes nothing */
 #define MATCH_SAFE ENS(XML_CUR_INV(self)) ENS(RV ==> self->_cur == OC + GLEN) \
@@ -108,10 +116,12 @@ char GWC; char GIC;
   __CPROVER_assigns(self->_cur, self->_line, self->_col, self->_hasError, self->_error) POST ;
 #define NAME_STARTS (OC < self->_input.n && XML_IS_NAMESTART(GOC))
 /* R1 cursor; R6 slice containment (general form) and limit: the returned view lies inside the input and is <= maxNameLength;
- * R7 an empty result is the null view; a non-empty result never comes with a new error */
+ * R7 an empty result is the null view; a non-empty result never comes with a new error;
+ * R8 the name was consumed (at least RV.n bytes) */
 #define RNAME_SAFE ENS(XML_CUR_INV(self) && self->_cur >= OC) \
                    ENS(XML_SLICE_IN(self, RV) && RV.n <= self->_opt.maxNameLength) \
-                   ENS(RV.n == 0 ? RV.p == NULL : self->_hasError == OLD(self->_hasError))
+                   ENS(RV.n == 0 ? RV.p == NULL : self->_hasError == OLD(self->_hasError)) \
+                   ENS(RV.n <= self->_cur - OC)
 /* R2 no name here: empty view, nothing consumed, no error raised; R3 the scanned run is non-empty, consists of name characters, is maximal */
 #define RNAME_RUN ENS(!NAME_STARTS ==> (RV.n == 0 && self->_cur == OC && self->_hasError == OLD(self->_hasError))) \
                   ENS(NAME_STARTS ==> self->_cur > OC) ENS((NAME_STARTS && GS == self->_cur && GS < self->_input.n) ==> !XML_IS_NAMECHAR(GSC)) \
@@ -154,7 +164,7 @@ char GWC; char GIC;
 /* ---------------- readText ---------------- */
 /* precondition from the call site in next(): !eof() and the next byte is not '<' */
 #define DECL_readText(sym, POST) bool sym(Parser *self, size_t startOffset, size_t startLine, size_t startCol) \
-  __CPROVER_requires(XML_PRE(self) && NOT_EOF && GOC != (char)60 && self->_producedTokens < (size_t)-1) \
+  __CPROVER_requires(XML_PRE(self) && NOT_EOF && GOC_PRE != (char)60 && self->_producedTokens < (size_t)-1) \
   __CPROVER_assigns(self->_cur, self->_line, self->_col, self->_hasError, self->_error, self->_token, self->_producedTokens) POST ;
 /* T1 cursor; T3 the span limit is tested BEFORE each step: never more than maxTextSpan bytes are taken;
  * T6 failure <=> error flag, and the only failure is the span limit; T7 token counter */
